@@ -65,6 +65,37 @@ def run_uniform(ctx):
             "random_biguint_below is not `draw bound.bits() bits, return the draw exactly when it is < bound, otherwise redraw`", loc=f.loc)
     except Skip:
         pass
+    def check_consumer(f, DATA, REM, where):
+        """in f: the rng fills DATA whole exactly once, then the top word is shifted down to REM bits when REM > 0"""
+        g = ctx.guards(f)
+        b = f.body
+        K = "%s:%s:" % (rule, where)
+        fl = [(bi, c) for bi, c in calls_named(ctx, f, "fill", "fill_bytes", "try_fill") if "rand" in (c[4] or c[1])]
+        good = len(fl) == 1 and Local(1)(fl[0][1][2][0]) and S(DATA)(fl[0][1][2][1]) and g.loop_of(fl[0][0]) is None
+        req(ctx, rule, K + "fill-whole", good, "rng.fill(data) over the whole word buffer, once",
+            "the whole word buffer is not filled from the rng exactly once", loc=f.loc)
+        pos = find_rel_edges(g, "Gt", REM, Lit(0))
+        shifts = []
+        for bi, si, s in b.iter_stmts():
+            # `data[last] >>= ..` on a slice (indexed place) or on a Vec (through IndexMut): the old value is data[last]
+            if s.kind == "assign" and s.rv is not None and s.rv.kind == "bin" and s.rv.op in ("Shr", "ShrUnchecked"):
+                ex = g.eb.rvalue(s.rv)
+                tgt = ex[2]
+                if s.place and s.place[1] == ("*",):
+                    # written through the reference returned by IndexMut::index_mut(data, i)
+                    ie = g.eb.init_expr(s.place[0])
+                    if ie is not None and ie[0] == "index":
+                        tgt = ie
+                if isinstance(tgt, tuple) and tgt[0] == "index":
+                    shifts.append((bi, ("bin", ex[1], tgt, ex[3]), tgt[2]))
+        good = len(pos) == 1 and len(shifts) == 1
+        if good:
+            bi, ex, ix = shifts[0]
+            good = b.dominates(pos[0].target, bi) and S(Bin("Sub", Lit(32), REM))(ex[3]) and \
+                Bin("Sub", Len(S(DATA)), Lit(1))(ix) and Index(S(DATA))(ex[2]) and bool(fl) and b.dominates(fl[0][0], bi)
+        req(ctx, rule, K + "top-word", good, "if rem > 0 { data[len-1] >>= 32 - rem }",
+            "the top word is not reduced to `rem` bits by `data[len-1] >>= 32 - rem` exactly when rem > 0", loc=f.loc)
+
     try:
         f = fn_at(ctx, rule, "random_biguint", RB)
         g = ctx.guards(f)
@@ -74,43 +105,27 @@ def run_uniform(ctx):
         r = Field(dr, name="1")
         words = S(Call("to_usize", Bin("Add", q, S(Bin("Gt", r, Lit(0))), commutative=True)))
         rds = [rd for rd in g.retdefs if rd.expr is not None]
-        rb = calls_named(ctx, f, "random_bits")
-        good = len(rds) == 1 and Call("new")(rds[0].expr) and len(rb) == 1
+        good = len(rds) == 1 and Call("new")(rds[0].expr)
+        data = rds[0].expr[2][0] if good else None
         if good:
-            data = rds[0].expr[2][0]
             init = g.eb.init_expr(data[1]) if data[0] == "phi" else data
-            good = init is not None and Call("from_elem", Lit(0), words)(init) and Local(1)(rb[0][1][2][0]) and rb[0][1][2][1] == data and r(rb[0][1][2][2]) \
-                and f.body.dominates(rb[0][0], rds[0].block)
-        req(ctx, rule, K + "word-count", good, "data = vec![0u32; bits/32 + (bits%32 > 0)]; random_bits(rng, data, bits%32); BigUint::new(data)",
+            good = init is not None and Call("from_elem", Lit(0), words)(init)
+        # the consumer of the rng: a separate helper (random_bits) or this function itself (helper inlined)
+        consumers = [x for x in ctx.prog.fns if x.body is not None and x.id.startswith(RB) and
+                     any("rand" in (t.callee.path or "") and t.callee.name in ("fill", "fill_bytes", "try_fill") for bi, t in x.body.calls())]
+        if good and len(consumers) == 1 and consumers[0].did == f.did:
+            check_consumer(f, Same(data), r, "random_biguint(inlined)")
+            fillb = [bi for bi, c in calls_named(ctx, f, "fill")]
+            good = bool(fillb) and f.body.dominates(fillb[0], rds[0].block)
+        elif good and len(consumers) == 1:
+            cf = consumers[0]
+            rb = calls_named(ctx, f, cf.name)
+            good = len(rb) == 1 and Local(1)(rb[0][1][2][0]) and rb[0][1][2][1] == data and r(rb[0][1][2][2]) and f.body.dominates(rb[0][0], rds[0].block)
+            check_consumer(cf, Local(2), Local(3), cf.id)
+        else:
+            good = False
+        req(ctx, rule, K + "word-count", good, "data = vec![0u32; bits/32 + (bits%32 > 0)]; filled from the rng with bits%32 as the top word's width; BigUint::new(data)",
             "random_biguint does not fill exactly ceil(bits/32) words and pass bits%32 as the top word's width", loc=f.loc)
-    except Skip:
-        pass
-    try:
-        f = fn_at(ctx, rule, "random_bits", RB)
-        g = ctx.guards(f)
-        b = f.body
-        K = "%s:%s:" % (rule, f.id)
-        fl = calls_named(ctx, f, "fill", "fill_bytes", "try_fill")
-        good = len(fl) == 1 and Local(1)(fl[0][1][2][0]) and Local(2)(fl[0][1][2][1]) and fl[0][0] == 0 or (len(fl) == 1 and b.dominates(fl[0][0], 0))
-        good = good and len(fl) == 1 and Local(1)(fl[0][1][2][0]) and Local(2)(fl[0][1][2][1])
-        req(ctx, rule, K + "fill-whole", good, "rng.fill(data) over the whole word buffer, once",
-            "random_bits does not fill the whole buffer from the rng exactly once", loc=f.loc)
-        # data[len-1] >>= 32 - rem, only when rem > 0
-        pos = [e for e in g.edges if e.cond[0] == "rel" and e.cond[1] == "Gt" and Local(3)(e.cond[2]) and Lit(0)(e.cond[3])]
-        shifts = []
-        for bi, si, s in b.iter_stmts():
-            if s.kind == "assign" and s.rv is not None and s.rv.kind == "bin" and s.rv.op in ("Shr", "ShrUnchecked") and s.place and s.place[1] and \
-                    isinstance(s.place[1][-1], tuple) and s.place[1][-1][0] == "ix":
-                ex = g.eb.rvalue(s.rv)
-                ix = g.eb.local(s.place[1][-1][1], 0)
-                shifts.append((bi, ex, ix))
-        good = len(pos) == 1 and len(shifts) == 1
-        if good:
-            bi, ex, ix = shifts[0]
-            good = b.dominates(pos[0].target, bi) and S(Bin("Sub", Lit(32), Local(3)))(ex[3]) and \
-                Bin("Sub", Len(Local(2)), Lit(1))(ix) and Index(Local(2))(ex[2]) and fl and b.dominates(fl[0][0], bi)
-        req(ctx, rule, K + "top-word", good, "if rem > 0 { data[len-1] >>= 32 - rem }",
-            "the top word is not reduced to `rem` bits by `data[len-1] >>= 32 - rem` exactly when rem > 0", loc=f.loc)
     except Skip:
         pass
     try:
@@ -515,16 +530,16 @@ def run_noise(ctx):
                 if t.callee.name in ("make_rng", "rng"):
                     continue
                 consumers.setdefault(f.id, set()).add(p)
-    want = {"dp::rand_bigint::random_bits": {"rand::RngExt::fill"}}
+    # exactly one function of dp::* consumes the RNG, it lives in dp::rand_bigint and its only draw is RngExt::fill
     for fid, ps in sorted(consumers.items()):
-        if fid in want and ps <= want[fid]:
-            ctx.ok(rule, "%s:%s" % (rule, fid), "only consumer of the RNG in dp::* : %s" % sorted(ps))
+        if fid.startswith("dp::rand_bigint::") and ps <= {"rand::RngExt::fill"} and len(consumers) == 1:
+            ctx.ok(rule, "%s:%s" % (rule, "consumer"), "only consumer of the RNG in dp::* : %s via %s" % (fid, sorted(ps)))
         else:
             ff = [x for x in prog.fns if x.id == fid][0]
-            ctx.bad(rule, "%s:%s" % (rule, fid), "%s consumes the RNG directly (%s); the exact-law argument allows only random_bits' "
-                                                 "uniform word fill" % (fid, sorted(ps)), loc=ff.loc)
-    if "dp::rand_bigint::random_bits" not in consumers:
-        ctx.bad(rule, rule + ":anchor", "random_bits no longer consumes the RNG via RngExt::fill", kind="anchor")
+            ctx.bad(rule, "%s:%s" % (rule, fid), "%s consumes the RNG directly (%s); the exact-law argument allows only the uniform word fill "
+                                                 "of dp::rand_bigint" % (fid, sorted(ps)), loc=ff.loc)
+    if not consumers:
+        ctx.bad(rule, rule + ":anchor", "no function of dp::* consumes the RNG via RngExt::fill", kind="anchor")
     ctx.count("dp functions scanned", n_fns)
     ctx.floor(rule, 1)
 
